@@ -1,10 +1,39 @@
 """C08 (DESIGN.md section 5): internal force = energy gradient, tangent = its exact Jacobian (PanelNL.tla)."""
+import random
+
 import panelmat
+from panelmat import rat
+
+
+def linear_link(tier, seed):
+    """'the tangent at the undeformed state is the linear stiffness matrix': the analytically integrated k0 and the
+    numerically integrated matrix at c = 0 of the same definitions (with and without force_orthotropic_laminate) are
+    both judged against the specification's K0, so the two kernel families are tied to one laminate matrix"""
+    rng = random.Random(seed + 8)
+    out, bad = [], []
+    for k in range(6 if tier == "quick" else 60):
+        pd = panelmat.random_pd(rng, ["plate", "cpanel"])
+        pd["m"], pd["n"] = rng.choice([(2, 2), (2, 3), (3, 2), (3, 3)])
+        pd["y1"], pd["y2"] = rat(0), pd["b"]
+        pd["Ncte"] = [rat(0)] * 3
+        if k % 2 == 0:
+            pd["ortho"] = True
+        else:
+            pd.pop("ortho", None)
+        for r in (dict(q="k0", size=0, row0=0, col0=0), dict(q="k0", size=0, row0=0, col0=0, num=[pd["m"] + 3, pd["n"] + 3])):
+            try:
+                obs, ok = panelmat.observe(pd, r)
+                out.append((pd, r, obs, ok))
+            except Exception as ex:
+                bad.append(("k0 at the undeformed state raised %s: %s" % (type(ex).__name__, str(ex)[:200]), dict(pd=pd, req=r)))
+    return out, bad
 
 
 def run(tier, seed, build):
+    extra, bad = linear_link(tier, seed)
     return panelmat.run_prop("C08", ["fint", "kT"], tier, seed, build, nrand_quick=16, nrand_thorough=200,
-                             what="the gradient / Hessian of the quartic strain energy")
+                             what="the gradient / Hessian of the quartic strain energy", extra_observed=extra,
+                             extra_violations=bad)
 
 
 def replay(path, build):
